@@ -344,6 +344,27 @@ def errd_null(ctx, P, fns, floor=8, what="loader", skip=()):
             ctx.check(r, bad is None, key(f, "%s#%d" % (cal, n)), f.where(c), "%s can return NULL (damaged file) but `%s` is dereferenced at line %s without a test" % (cal, lhs_paths[0], f.line(bad) if bad is not None else "?"))
 
 
+def _only_null_tested(f, read):
+    """the read of the pointer is only compared with NULL (its value is not followed)"""
+    p = f.parent[read]
+    while p is not None and f.k(p) in ("Paren", "ICast", "Cast"):
+        p = f.parent[p]
+    if p is None:
+        return False
+    nd = f.nodes[p]
+    if nd["k"] == "Un" and nd["op"] == "!":
+        return True
+    if nd["k"] == "Bin" and nd["op"] in ("==", "!=") and any(paths._is_zero(f, c) for c in nd["ch"]):
+        return True
+    if nd["k"] in ("If", "While", "For", "Cond") and f.strip(nd["ch"][0]) == f.strip(read):
+        return True
+    if nd["k"] == "Bin" and nd["op"] in ("&&", "||"):
+        return True
+    return False
+
+
+# callees that store a pointer without taking over its release
+BORROWERS = {("yyset_in", 0): "the scanner reads from the stream; yylex_destroy does not close it"}
 _DEREF_CACHE = {}
 _KEEP_CACHE = {}
 
@@ -929,13 +950,16 @@ def _error_exits(f):
 
 
 # -------------------------------------------------------------------------------- unwinding
-def unwind_rule(ctx, P, fns, floor=10, only_readers=True, extra_allocs=(), extra_frees=()):
+def unwind_rule(ctx, P, fns, floor=10, only_readers=True, extra_allocs=(), extra_frees=(), extra_owned=()):
+    """extra_owned: constructors whose result is tracked for double release / use after release only
+    (objects are reference counted and often kept, so no leak obligation is derived for them)"""
     r = ctx.rule("UNWIND", "a local buffer released in a loader / parser is not released or read again on any later path, a buffer handed to the caller is not released afterwards, and a temporary buffer (never stored into the object or returned) is released on every exit", floor=floor)
     for f in fns:
         if only_readers and not any(f.nodes[c].get("callee") in READS for c in f.calls()) and not any("s3file_t" in prm[1] for prm in f.params):
             continue
         # locals assigned from an allocator
         owned = {}
+        objects = set()
         for c in f.calls():
             cal = f.nodes[c].get("callee")
             if cal in ALLOCS and cal not in ("__ckd_alloc_2d_ptr", "__ckd_alloc_3d_ptr") or cal in ("s3file_copy_header_value", "s3file_copy_header_name", "s3file_copy_nextword", "__ckd_salloc__") or cal in extra_allocs:
@@ -952,6 +976,15 @@ def unwind_rule(ctx, P, fns, floor=10, only_readers=True, extra_allocs=(), extra
                     d = None
                 if d is not None:
                     owned.setdefault(d, []).append(p)
+            elif cal in extra_owned:
+                p = f.up(c)
+                while p is not None and f.k(p) in ("Paren", "ICast", "Cast"):
+                    p = f.parent[p]
+                if p is not None and f.k(p) in ("Assign", "Var"):
+                    d = paths.local_of(f, f.ch(p)[0]) if f.k(p) == "Assign" else f.nodes[p].get("decl")
+                    if d is not None:
+                        owned.setdefault(d, [])
+                        objects.add(d)
         if not owned:
             continue
         ctx.touch(f)
@@ -964,10 +997,12 @@ def unwind_rule(ctx, P, fns, floor=10, only_readers=True, extra_allocs=(), extra
                 args = f.args(c)
                 for ai, a in enumerate(args):
                     if paths.local_of(f, a) == d:
-                        if cal in FREES or cal in extra_frees:
+                        if cal in FREES or cal in extra_frees or (any(x == "*_free" for x in extra_frees) and cal and cal.endswith("_free") and ai == 0):
                             frees.append(c)
                         elif cal not in ("s3file_get", "memcpy", "memset", "vector_sum_norm", "vector_floor", "vector_nz_floor", "strcmp", "strlen", "atof", "atoi", "err_msg", "logmath_log", "strncmp", "sscanf", "strtol", "strchr", "err_msg_system", "strtod", "strcpy", "strcat", "snprintf", "sprintf", "strrchr", "strstr"):
                             tg = P.fn_index.get(cal, [])
+                            if (cal, ai) in BORROWERS:
+                                continue
                             if not tg or any(_keeps_param(P, g, ai) for g in tg):
                                 escapes = True
             for s in paths.stores(f):
@@ -989,7 +1024,7 @@ def unwind_rule(ctx, P, fns, floor=10, only_readers=True, extra_allocs=(), extra
                         escapes = True
             # double free / use after free
             for n, fr in enumerate(frees):
-                later = paths.use_after(f, fr, d)
+                later = [x for x in paths.use_after(f, fr, d) if not _only_null_tested(f, x)]
                 # a null test of the local is a read but harmless only if the local was reset; it was not (no redefinition)
                 ctx.check(r, not later, key(f, "%s:released#%d" % (name, n)), f.where(fr), "`%s` is released here and used again at line %s on a later path (double free on the error path)" % (name, f.line(later[0]) if later else "?"))
             # handed to the caller through an out-parameter: releasing it afterwards leaves the caller a dangling pointer
@@ -1000,7 +1035,7 @@ def unwind_rule(ctx, P, fns, floor=10, only_readers=True, extra_allocs=(), extra
                 for n, fr in enumerate(frees):
                     bad_ = f.cfg.path_exists(paths.pos_of(f, st["node"]), lambda e, fr=fr: e == fr) and not paths.must_pass(f, fr, lambda e: e in resets)
                     ctx.check(r, not bad_, key(f, "%s:handed-out#%d" % (name, n)), f.where(fr), "`%s` was handed to the caller through `%s` and is released here without resetting it: the caller releases it again" % (name, outp))
-            if escapes:
+            if escapes or d in objects:
                 continue
             # temporary: every exit after an allocation passes a free (null-test edges of the local removed)
             null_edges = set(paths.guard_edges(f, lambda fn, cc, pol, name=name: paths.cond_atoms(fn, cc, pol, subst=False) == (name, False)))
